@@ -671,6 +671,7 @@ class Engine:
                     obligations.append(ob)
         obligations.extend(self.prove_lemmas(ct))
         obligations.extend(self.independence_obligations(ct))
+        obligations.extend(self.final_value_obligations(ct))
         if ct.ghost.get("dataflow_only"):
             # the contract consists of iteration-independence clauses only: no symbolic run of the body
             self.find_function(ct)
@@ -691,6 +692,31 @@ class Engine:
                 obligations.append(ob)
                 break
         return {"contract": ct, "obligations": obligations, "paths": paths, "dead": dead, "symex_s": time.time() - t0}
+
+    def final_value_obligations(self, ct):
+        """ghost['final_value'] = {"var": v, "call": f, "early_returns": n}: what the function hands back at its end is f(v, ...) with nothing
+        added afterwards, and it has exactly n early outs - decided on the statement list of the real function (pyvc.dataflow)"""
+        spec = ct.ghost.get("final_value")
+        if not spec:
+            return []
+        from .dataflow import check_final_value
+        mod, cls, fn = self.find_function(ct)
+        problems = check_final_value(fn, spec["var"], spec["call"], spec.get("early_returns", 0))
+        obs = []
+        for what, kinds in (("handed-back-value-is-the-result-of-the-call", ("final-return", "last-write-is-not-the-call")),
+                            ("no-other-way-out-than-the-known-early-outs", ("early-returns",))):
+            bad = [p for p in problems if p[0] in kinds]
+            ob = Obligation(f"{ct.cid}:final:{what}", "independent", what, [], z3.BoolVal(not bad), "-",
+                            info={"clause": f"the function ends with `return {spec['var']}` right after `{spec['var']} = {spec['call']}({spec['var']}, ...)`"
+                                            f" and has {spec.get('early_returns', 0)} early return(s): {what}"})
+            ob.verdict = "sat" if bad else "unsat"
+            ob.backend = "dataflow"
+            ob.ms = 0
+            ob.model = None
+            if bad:
+                ob.detail = "; ".join(f"{k}: '{n}' at line {ln}" for k, n, ln in bad[:4])
+            obs.append(ob)
+        return obs
 
     def independence_obligations(self, ct):
         """ghost['independent_iterations'] = {loop ordinal: [accumulators]}: decided by pyvc.dataflow (def-before-use), not by a solver"""
